@@ -214,6 +214,13 @@ def run(shard, ctx):
                         d[k] = v
                         assigns.append(d)
         # neighbour cases: each field at max while neighbours at max and at 0 are covered by ones/zero fills above
+        # the same assignments with values that are ints by subclass only (bool for one-bit fields, an int subclass as
+        # enum.IntEnum members are): equal numbers, equal bytes
+        typed = []
+        for d in assigns[:: max(1, len(assigns) // 60)]:
+            typed.append({k: (bool(v) if widths[k] == 1 else harness.IntSub(v)) for k, v in d.items()})
+        ctx.count("typed_assignments", len(typed))
+        assigns = assigns + typed
         fresh_same_class()
         for d in assigns:
             d = dict(d)
